@@ -443,8 +443,21 @@ impl MemoryInstance {
             "We only allow shrinking of the heap during rollback"
         );
 
-        let stack_changes =
-            get_changes(&self.stack[..sp], &desired_memory_state.stack[..sp], 0);
+        // The current stack can be shorter than the desired one (the heap has grown over
+        // it, or the memory was reset). `rollback` re-extends it with zeros, so the missing
+        // tail is compared against zeros.
+        let common = sp.min(self.stack.len());
+        let mut stack_changes = get_changes(
+            &self.stack[..common],
+            &desired_memory_state.stack[..common],
+            0,
+        );
+        let missing_tail = vec![0u8; sp.saturating_sub(common)];
+        stack_changes.extend(get_changes(
+            &missing_tail,
+            &desired_memory_state.stack[common..sp],
+            common,
+        ));
 
         let heap_start = hp
             .checked_sub(self.heap_offset())
